@@ -35,7 +35,7 @@ META = {
                   'through the public API on amd64, so correspondence does not exercise them. By-name patches have no target type: no '
                   'signature check exists or is claimed there. Known deviations on the unchanged code (KNOWN_FINDINGS): method values as targets are '
                   'unchecked (C13-K1), string/reflect panics carry no typed cause (C13-K2), the walk stops at *IllegalParam (C13-K3), '
-                  'empty first Returns() (F27-c13) and first When() (C04-K1) are accepted.',
+                  'a first When() without conditions (C04-K1) is accepted.',
 }
 
 T = Z.TYPES
@@ -541,19 +541,19 @@ class Gen:
         # an empty first Returns() and a first When() without conditions
         for name, (ins, outs, var) in ALLF.items():
             h = f'seqf {name} {lst(ins)} {lst(outs)} {int(var)} {rng.below(2)}'
-            self.add(f'{h} returns ()', 'returns-empty' if outs else 'accept')
+            self.add(f'{h} returns ()', 'ret-few' if outs else 'accept')
             if outs:
                 self.add(f'{h} return {lst(outs)} ; returns ()', 'accept')          # on the handle an empty Returns adds nothing
             if ins and outs:
                 self.add(f'{h} when - ; return {lst(outs)}', 'when-none')
         for name, (ins0, outs, var) in Z.METHODS.items():
             hm = f'seqm {name} {lst(["prc"] + ins0)} {lst(outs)} {int(var)}'
-            self.add(f'{hm} returns ()', 'returns-empty' if outs else 'accept')
+            self.add(f'{hm} returns ()', 'ret-few' if outs else 'accept')
             if ins0 and outs:
                 self.add(f'{hm} when - ; return {lst(outs)}', 'when-none')
         for name, (mins, mouts) in Z.IMETHODS.items():
             hi = f'seqi {name} {INAMES} {lst(mins)} {lst(mouts)} {lst(["ictx"] + mins)} {lst(mouts)}'
-            self.add(f'{hi} returns ()', 'returns-empty' if mouts else 'accept')
+            self.add(f'{hi} returns ()', 'ret-few' if mouts else 'accept')
             if mins and mouts:
                 self.add(f'{hi} when - ; return {lst(mouts)}', 'when-none')
         # In(...) with BARE arguments on a variadic target with ONE fixed parameter (a bare argument is one condition): from the
@@ -689,11 +689,9 @@ def oracle(op, tag, obs):
             return (f'erro.CauseBy is wrong on the reported error: it recognises {k} of the {n} Traceable nodes of the chain {f.get("chain")} '
                     f'and {"claims" if x != "0" else "rejects"} an unrelated error', 'causeby')
     if form in ('seqf', 'seqm', 'seqi', 'rtf', 'rtm', 'rti'):
-        if tag in ('returns-empty', 'when-none') and not rejected:
-            key = {'returns-empty': 'returns-empty-accepted', 'when-none': 'first-when-without-args'}[tag]
-            what = {'returns-empty': 'a first Returns() without any value on a target WITH results was accepted and the target patched (every call panics)',
-                    'when-none': 'a first When() without any condition on a target WITH parameters was accepted (it silently becomes the default)'}[tag]
-            return (what, key)
+        if tag == 'when-none' and not rejected:
+            return ('a first When() without any condition on a target WITH parameters was accepted (it silently becomes the default)',
+                    'first-when-without-args')
         return oracle_seq(op, tag, f, rejected)
     if tag.startswith('fm:'):
         if not rejected:
@@ -773,6 +771,8 @@ def oracle_seq(op, tag, f, rejected):
         if tag != 'accept':
             if not rejected:
                 return (f'mistake `{mistake}` (last call of the sequence) was accepted at configuration time', 'accepted:' + mistake.split(':')[0])
+            if mistake == 'ret-few' and len(steps) == 1 and not f.get('walk', '').startswith('returnsnotmatch'):
+                return (f'mistake `{mistake}`: the cause chain {f.get("chain")} walks to {f.get("walk")}, not to the typed cause returnsnotmatch', 'cause:ret-few')
             if mistake == 'when-few' and not f.get('walk', '').startswith('argsnotmatch'):
                 return (f'mistake `{mistake}`: the cause chain {f.get("chain")} walks to {f.get("walk")}, not to the typed cause argsnotmatch', 'cause:when-few')
     before, beh = f.get('before'), f.get('beh')
